@@ -363,4 +363,12 @@ def verify_function(src: Source, qual: str, family=None, variant=None) -> dict:
         return {"qual": qual, "out_of_reach": str(e), "obligations": [], "hash": src.fhash(fd)}
     except RecursionError:
         return {"qual": qual, "out_of_reach": "recursion limit in the executor", "obligations": [], "hash": src.fhash(fd)}
+    except (AttributeError, KeyError, IndexError, TypeError, z3.Z3Exception) as e:
+        # the sidecar contract does not attach to the current source any more (e.g. a local variable an
+        # invariant talks about was renamed, a parameter changed type): the function is out of reach for
+        # this run and the bounded tier decides -- never a violation, never a checker crash (DESIGN §3.8)
+        import traceback
+
+        where = traceback.format_exc().strip().split("\n")[-3:]
+        return {"qual": qual, "out_of_reach": f"contract does not attach to the current source: {type(e).__name__}: {e} @ {' | '.join(w.strip() for w in where)[:300]}", "obligations": [], "hash": src.fhash(fd)}
     return {"qual": qual, "out_of_reach": None, "obligations": obs, "hash": src.fhash(fd)}
